@@ -661,7 +661,7 @@ package ackhandler
 //@   modifies t.lostPackets, elems(lostPacket)
 
 //@ func (h *sentPacketHandler) detectLostPackets$1
-//@   props C06
+//@   props C06 C14
 //@   let sp = pnSpace
 //@   requires h != nil && sp != nil && arg1 != nil && h.congestion != nil && 0 <= h.bytesInFlight && 0 <= arg1.Length && (!arg1.includedInBytesInFlight || arg1.Length <= h.bytesInFlight)
 //@   requires h.lostPackets.maxLength >= 1 && len(h.lostPackets.lostPackets) <= h.lostPackets.maxLength && -1 <= arg0 && sp.largestAcked <= 4611686018427387903 && 1 <= arg1.EncryptionLevel && arg1.EncryptionLevel <= 4
@@ -931,7 +931,7 @@ package ackhandler
 // recomputed UNCONDITIONALLY afterwards: confirming the handshake can make outstanding 1-RTT data timer-eligible for the
 // first time, so "an alarm that is not armed needs no update" would leave such data without any deadline.
 //@ func (h *sentPacketHandler) DropPackets
-//@   props C06
+//@   props C06 C14
 //@   let sp = ite(encLevel == 1, h.initialPackets, h.handshakePackets)
 //@   let early = (encLevel == 1 || encLevel == 2) && old(sp) == nil
 //@   requires h.sInv() && 0 <= now && now <= 4611686018427387903
